@@ -61,6 +61,11 @@ EXT = {
     'matplotlib.pyplot.show': dict(writes=['ghost:FIGS']),
     'matplotlib.pyplot.savefig': dict(writes=['ghost:FS']),
     'matplotlib.pyplot.style.context': dict(restores=['ghost:RC']),
+    # the warning filters / showwarning hook are process-wide state of the stdlib module (not thread-local in CPython <= 3.13)
+    'warnings.catch_warnings': dict(restores=['ghost:WARNFILTERS']),
+    'warnings.simplefilter': dict(writes=['ghost:WARNFILTERS']),
+    'warnings.filterwarnings': dict(writes=['ghost:WARNFILTERS']),
+    'warnings.resetwarnings': dict(writes=['ghost:WARNFILTERS']),
     'matplotlib.pyplot.style.use': dict(writes=['ghost:RC']),
     'matplotlib.pyplot.rc': dict(writes=['ghost:RC']),
     'matplotlib.pyplot.rcdefaults': dict(writes=['ghost:RC']),
